@@ -233,6 +233,7 @@ fn pre_dispatch(sim: &Sim) {
         s.cb_this_dispatch = 0;
         s.pe_this_dispatch = 0;
         s.excused = false;
+        s.errored_this_dispatch = false;
     }
     crate::life::dispatch_start(&mut st);
     crate::composite::dispatch_start(&mut st);
@@ -341,6 +342,12 @@ fn model_next_deadline(st: &St) -> Option<u64> {
     best
 }
 
+/// after an Err dispatch the MUST rule only applies if the error came out of event processing
+/// (not out of a hook before the wait)
+fn flags_err_ok(st: &St) -> bool {
+    st.srcs.values().any(|s| s.errored_this_dispatch)
+}
+
 fn any_indeterminate_timer(st: &St) -> bool {
     if st.hidden_unknown {
         return true;
@@ -379,7 +386,7 @@ fn after_dispatch(sim: &Rc<Sim>, t: Timeout, ok: bool, err: Option<String>, t_st
     if sim.is_dead() {
         return;
     }
-    crate::exec::hidden_after_dispatch(sim, ok, waits.first().map(|w| w.t_leave).unwrap_or(t_end));
+    crate::exec::hidden_after_dispatch(sim, ok || waits.len() == 1, waits.first().map(|w| w.t_leave).unwrap_or(t_end));
     crate::exec::after_dispatch(sim, ok);
     if sim.is_dead() {
         return;
@@ -398,8 +405,10 @@ fn after_dispatch(sim: &Rc<Sim>, t: Timeout, ok: bool, err: Option<String>, t_st
         sim.violate("wait.count", vec![], format!("{} waits in one dispatch", waits.len()));
         return;
     }
-    // ---- C02 and friends: MUST subset of invoked + excused
-    if ok {
+    // ---- C02 and friends: MUST subset of invoked + excused. A source error is reported after
+    // the whole batch has been processed, so the obligation also holds for a dispatch that
+    // returned an error (the failing sources themselves aside), provided the wait was reached.
+    if ok || waits.len() == 1 {
         let st = sim.st.borrow();
         let mut bad: Option<(Vec<&'static str>, String, Vec<String>)> = None;
         for (id, m) in st.must.iter() {
@@ -408,7 +417,10 @@ fn after_dispatch(sim: &Rc<Sim>, t: Timeout, ok: bool, err: Option<String>, t_st
                 Must::Callback => s.cb_this_dispatch > 0,
                 Must::Process => s.pe_this_dispatch > 0,
             };
-            if served || s.excused || s.indeterminate {
+            if served || s.excused || s.indeterminate || s.errored_this_dispatch {
+                continue;
+            }
+            if !ok && !flags_err_ok(&st) {
                 continue;
             }
             let mut flags = vec![format!("kind={}", s.k.name())];
@@ -861,7 +873,9 @@ pub fn event_end(sim: &Sim, _key: usize) {
                         }
                     }
                     // kind specific expectations about the post action
+                    let indet = s.indeterminate;
                     match &mut s.k {
+                        _ if indet => {}
                         K::Ping(p) => {
                             if p.closed_at_pe && pa != PostAction::Remove {
                                 viol = Some(("ping.not_removed_after_close", vec![], format!("ping source {} drained its close marker but did not ask for removal", id)));
@@ -1076,6 +1090,11 @@ pub fn pe_begin(id: Id, _key: usize) -> bool {
 /// process_events of source `id` returned (called by Wrap).
 pub fn pe_end(id: Id, ret: LastRet, scripted: bool) {
     let Some(sim) = try_cur() else { return };
+    if ret == LastRet::Err {
+        if let Some(s) = sim.st.borrow_mut().srcs.get_mut(&id) {
+            s.errored_this_dispatch = true;
+        }
+    }
     if ret == LastRet::Err {
         let mut hk = sim.hk.borrow_mut();
         if scripted || hk.cb_err_returned {
